@@ -145,6 +145,22 @@ type racClause struct {
 
 // racSource generates the harness for fn. lits != nil selects replay mode (one case).
 func (p *Program) racSource(key string, tier int, capN int64, seed int64, lits map[string]string) (string, string, error) {
+	body, uni, err := p.racBody(key, tier, capN, seed, lits, 0)
+	if err != nil {
+		return "", "", err
+	}
+	return p.racHeader() + body, uni, nil
+}
+
+func (p *Program) racHeader() string {
+	var b bytes.Buffer
+	fmt.Fprintf(&b, "//go:build verif\n\npackage %s\n\nimport (\n\t\"encoding/json\"\n\t\"fmt\"\n\t\"os\"\n\t\"testing\"\n)\n\n", p.Pkg.Types.Name())
+	b.WriteString("var _ = json.Marshal\nvar _ = os.Getenv\n\nfunc verifMaxFail() int64 {\n\tif os.Getenv(\"VERIF_RAC_MAXFAIL\") != \"\" {\n\t\treturn 100000\n\t}\n\treturn 200\n}\n\n")
+	b.WriteString("type verifRes struct {\n\tpre bool\n\tfail string\n\tinputs map[string]string\n\tlits map[string]string\n}\n\n")
+	return b.String()
+}
+
+func (p *Program) racBody(key string, tier int, capN int64, seed int64, lits map[string]string, idx int) (string, string, error) {
 	fn := p.Funcs[key]
 	if fn == nil {
 		return "", "", fmt.Errorf("no function %s", key)
@@ -217,11 +233,8 @@ func (p *Program) racSource(key string, tier int, capN int64, seed int64, lits m
 	}
 	var b bytes.Buffer
 	w := func(format string, a ...interface{}) { fmt.Fprintf(&b, format, a...) }
-	w("//go:build verif\n\npackage %s\n\nimport (\n\t\"encoding/json\"\n\t\"fmt\"\n\t\"os\"\n\t\"testing\"\n)\n\n", p.Pkg.Types.Name())
-	w("func verifMaxFail() int64 {\n\tif os.Getenv(\"VERIF_RAC_MAXFAIL\") != \"\" {\n\t\treturn 100000\n\t}\n\treturn 200\n}\n\n")
-	w("type verifRes struct {\n\tpre bool\n\tfail string\n\tinputs map[string]string\n\tlits map[string]string\n}\n\n")
 	// case function
-	w("func verifCase(")
+	w("func verifCase_%d(", idx)
 	for i, prm := range params {
 		if i > 0 {
 			w(", ")
@@ -308,7 +321,7 @@ func (p *Program) racSource(key string, tier int, capN int64, seed int64, lits m
 	}
 	w("\treturn\n}\n\n")
 	// driver
-	w("func TestVerifRAC(t *testing.T) {\n")
+	w("func TestVerifRAC_%d(t *testing.T) {\n", idx)
 	for i, prm := range params {
 		w("\tg%d := %s\n", i, prm.Gen)
 	}
@@ -322,35 +335,61 @@ func (p *Program) racSource(key string, tier int, capN int64, seed int64, lits m
 	for i := range params {
 		w("\t\ti%d := idx %% int64(len(g%d))\n\t\tidx /= int64(len(g%d))\n", i, i, i)
 	}
-	w("\t\tr := verifCase(")
+	w("\t\tr := verifCase_%d(", idx)
 	for i, prm := range params {
 		if i > 0 {
 			w(", ")
 		}
 		w("%s", racClone(prm.Type, fmt.Sprintf("g%d[i%d]", i, i)))
 	}
-	w(")\n\t\tran++\n\t\tif r.pre {\n\t\t\tpre++\n\t\t\tif shown < 3 && (pre%%97 == 1) {\n\t\t\t\tshown++\n\t\t\t\tj, _ := json.Marshal(r.inputs)\n\t\t\t\tfmt.Printf(\"VERIF-RAC-SAMPLE %%s\\n\", j)\n\t\t\t}\n\t\t}\n")
-	w("\t\tif r.fail != \"\" {\n\t\t\tfails++\n\t\t\tif fails <= verifMaxFail() {\n\t\t\t\tj, _ := json.Marshal(map[string]interface{}{\"inputs\": r.inputs, \"lits\": r.lits, \"what\": r.fail})\n\t\t\t\tfmt.Printf(\"VERIF-RAC-FAIL %%s\\n\", j)\n\t\t\t}\n\t\t}\n\t}\n")
-	w("\tfmt.Printf(\"VERIF-RAC-SUMMARY cases=%%d pre=%%d fails=%%d total=%%d\\n\", ran, pre, fails, total)\n}\n")
-	return b.String(), strings.Join(universe, "; "), nil
+	w(")\n\t\tran++\n\t\tif r.pre {\n\t\t\tpre++\n\t\t\tif shown < 3 && (pre%%97 == 1) {\n\t\t\t\tshown++\n\t\t\t\tj, _ := json.Marshal(r.inputs)\n\t\t\t\tfmt.Printf(\"VERIF-RAC-SAMPLE IDX %%s\\n\", j)\n\t\t\t}\n\t\t}\n")
+	w("\t\tif r.fail != \"\" {\n\t\t\tfails++\n\t\t\tif fails <= verifMaxFail() {\n\t\t\t\tj, _ := json.Marshal(map[string]interface{}{\"inputs\": r.inputs, \"lits\": r.lits, \"what\": r.fail})\n\t\t\t\tfmt.Printf(\"VERIF-RAC-FAIL IDX %%s\\n\", j)\n\t\t\t}\n\t\t}\n\t}\n")
+	w("\tfmt.Printf(\"VERIF-RAC-SUMMARY IDX cases=%%d pre=%%d fails=%%d total=%%d\\n\", ran, pre, fails, total)\n}\n")
+	return strings.ReplaceAll(b.String(), " IDX ", fmt.Sprintf(" %d ", idx)), strings.Join(universe, "; "), nil
 }
 
-// runRAC writes the harness, injects it with -overlay and runs it.
+// runRAC runs the harness for one function.
 func (p *Program) runRAC(key string, tier int, capN int64, seed int64, lits map[string]string, workDir string, timeoutS int) *RACResult {
-	res := &RACResult{Func: key}
+	return p.runRACBatch([]string{key}, tier, capN, seed, lits, workDir, timeoutS)[key]
+}
+
+// runRACBatch generates one harness with a driver per function, injects it with -overlay and runs it
+// once (one compilation for the whole batch).
+func (p *Program) runRACBatch(keys []string, tier int, capN int64, seed int64, lits map[string]string, workDir string, timeoutS int) map[string]*RACResult {
+	out := map[string]*RACResult{}
 	t0 := time.Now()
-	defer func() { res.WallS = time.Since(t0).Seconds() }()
-	src, universe, err := p.racSource(key, tier, capN, seed, lits)
-	if err != nil {
-		res.Error = err.Error()
-		return res
+	var src bytes.Buffer
+	src.WriteString(p.racHeader())
+	var order []string
+	for _, key := range keys {
+		res := &RACResult{Func: key}
+		out[key] = res
+		body, universe, err := p.racBody(key, tier, capN, seed, lits, len(order))
+		if err != nil {
+			res.Error = err.Error()
+			continue
+		}
+		res.Universe = universe
+		src.WriteString(body)
+		order = append(order, key)
 	}
-	res.Universe = universe
+	if len(order) == 0 {
+		return out
+	}
+	tag := fmt.Sprintf("%s_%d", fileSafe(filepath.Base(p.Dir)), len(order))
+	if len(order) == 1 {
+		tag = fileSafe(order[0])
+	}
 	os.MkdirAll(workDir, 0o755)
-	hfile := filepath.Join(workDir, "rac_"+sanitize(key)+"_test.go")
-	if err := os.WriteFile(hfile, []byte(src), 0o644); err != nil {
-		res.Error = err.Error()
-		return res
+	hfile := filepath.Join(workDir, "rac_"+tag+"_test.go")
+	fail := func(msg string) map[string]*RACResult {
+		for _, k := range order {
+			out[k].Error = msg
+		}
+		return out
+	}
+	if err := os.WriteFile(hfile, src.Bytes(), 0o644); err != nil {
+		return fail(err.Error())
 	}
 	ov := map[string]map[string]string{"Replace": {filepath.Join(p.Dir, "zz_verif_rac_test.go"): hfile}}
 	for f, data := range loadOverlay {
@@ -359,43 +398,72 @@ func (p *Program) runRAC(key string, tier int, capN int64, seed int64, lits map[
 		ov["Replace"][f] = of
 	}
 	ovData, _ := json.Marshal(ov)
-	ovFile := filepath.Join(workDir, "rac_"+sanitize(key)+"_overlay.json")
+	ovFile := filepath.Join(workDir, "rac_"+tag+"_overlay.json")
 	os.WriteFile(ovFile, ovData, 0o644)
-	tmp := filepath.Join(workDir, "tmp_"+sanitize(key))
+	tmp := filepath.Join(workDir, "tmp_"+tag)
 	os.MkdirAll(tmp, 0o755)
 	defer os.RemoveAll(tmp)
 	cmd := exec.Command("go", "test", "-tags", "verif", "-overlay", ovFile, "-vet=off", "-count=1",
-		fmt.Sprintf("-timeout=%ds", timeoutS), "-v", "-run", "^TestVerifRAC$", ".")
+		fmt.Sprintf("-timeout=%ds", timeoutS), "-v", "-run", "^TestVerifRAC_", ".")
 	cmd.Dir = p.Dir
 	cmd.Env = append(os.Environ(), "GOFLAGS=-mod=mod", "GOPROXY=off", "TMPDIR="+tmp)
-	var out bytes.Buffer
-	cmd.Stdout = &out
-	cmd.Stderr = &out
+	var outBuf bytes.Buffer
+	cmd.Stdout = &outBuf
+	cmd.Stderr = &outBuf
 	runErr := cmd.Run()
-	sawSummary := false
-	for _, line := range strings.Split(out.String(), "\n") {
+	saw := map[int]bool{}
+	parseIdx := func(rest string) (int, string, bool) {
+		sp := strings.Index(rest, " ")
+		if sp < 0 {
+			return 0, "", false
+		}
+		var idx int
+		if _, err := fmt.Sscanf(rest[:sp], "%d", &idx); err != nil || idx < 0 || idx >= len(order) {
+			return 0, "", false
+		}
+		return idx, rest[sp+1:], true
+	}
+	for _, line := range strings.Split(outBuf.String(), "\n") {
 		switch {
 		case strings.HasPrefix(line, "VERIF-RAC-FAIL "):
-			var f RACFailure
-			if json.Unmarshal([]byte(strings.TrimPrefix(line, "VERIF-RAC-FAIL ")), &f) == nil {
-				res.Failures = append(res.Failures, f)
+			if idx, rest, ok := parseIdx(strings.TrimPrefix(line, "VERIF-RAC-FAIL ")); ok {
+				var f RACFailure
+				if json.Unmarshal([]byte(rest), &f) == nil {
+					out[order[idx]].Failures = append(out[order[idx]].Failures, f)
+				}
 			}
 		case strings.HasPrefix(line, "VERIF-RAC-SAMPLE "):
-			res.Samples = append(res.Samples, strings.TrimPrefix(line, "VERIF-RAC-SAMPLE "))
+			if idx, rest, ok := parseIdx(strings.TrimPrefix(line, "VERIF-RAC-SAMPLE ")); ok {
+				out[order[idx]].Samples = append(out[order[idx]].Samples, rest)
+			}
 		case strings.HasPrefix(line, "VERIF-RAC-SUMMARY "):
-			fmt.Sscanf(strings.TrimPrefix(line, "VERIF-RAC-SUMMARY "), "cases=%d pre=%d fails=%d total=%d", &res.Cases, &res.PreOK, &res.Fails, &res.Total)
-			sawSummary = true
+			if idx, rest, ok := parseIdx(strings.TrimPrefix(line, "VERIF-RAC-SUMMARY ")); ok {
+				r := out[order[idx]]
+				fmt.Sscanf(rest, "cases=%d pre=%d fails=%d total=%d", &r.Cases, &r.PreOK, &r.Fails, &r.Total)
+				r.Exhaustive = r.Total <= capN
+				saw[idx] = true
+			}
 		}
 	}
-	res.Exhaustive = sawSummary && res.Total <= capN
-	if !sawSummary {
-		tail := out.String()
-		if len(tail) > 3000 {
-			tail = tail[len(tail)-3000:]
+	if len(order) > 1 && strings.Contains(outBuf.String(), "[build failed]") {
+		// one clause does not compile natively: isolate it by running the functions one by one
+		for _, k := range order {
+			out[k] = p.runRACBatch([]string{k}, tier, capN, seed, lits, workDir, timeoutS)[k]
 		}
-		res.Error = fmt.Sprintf("harness did not complete (%v): %s", runErr, tail)
+		return out
 	}
-	return res
+	wall := time.Since(t0).Seconds()
+	for i, k := range order {
+		out[k].WallS = wall / float64(len(order))
+		if !saw[i] {
+			tail := outBuf.String()
+			if len(tail) > 3000 {
+				tail = tail[len(tail)-3000:]
+			}
+			out[k].Error = fmt.Sprintf("harness did not complete (%v): %s", runErr, tail)
+		}
+	}
+	return out
 }
 
 var _ = ssa.Function{}
